@@ -33,9 +33,14 @@ let comp_paths : Registry.comp = fun _params ->
        (match Paths.delete_target (bytes_of_hex g) (bytes_of_hex f) with
         | None -> "refused"
         | Some _ -> "attempted")
+    | ["getperm"; tp; po; nd; check; cuser; ue; pw] ->
+       let opt x = if x = "nil" then None else Some (bytes_of_hex x) in
+       (match Paths.get_permission_username (b tp) (b po) (b nd) (opt check) (opt cuser) (b ue) (b pw) with
+        | None -> "refused"
+        | Some u -> "ok " ^ hx u)
     | ["apigroup"; p] -> hx (Paths.api_group_name (bytes_of_hex p))
     (* operations observed by monitors only *)
-    | ("groupadd" | "apiput" | "updatedesc" | "updateuser") :: _ -> "-"
+    | ("groupadd" | "apiput" | "updatedesc" | "updateuser" | "addclient") :: _ -> "-"
     | _ -> failwith ("paths: bad op " ^ String.concat " " toks)
 
 let init () = register "paths" comp_paths
